@@ -3,8 +3,10 @@
 (and the RLE1 stage of C01).
 
 Proof side : lake build + axiom audit of LbzVerif.Props.C04
-             (unrle_rle, rleLen_snoc, rleLen_take_mono, pack_maximal,
-              pack_largest, collect_split, collect_pack, ...).
+             (unrle_rle, rle1_run, rle1_maxrun, rleLen_snoc, rleLen_take_mono,
+              pack_maximal, pack_largest, pack_pos, blocksOf_unfold,
+              blocksOf_flatten, collect_split, collect_preserves_inv,
+              collectMany_flatten, collect_pack, collect_pack_single).
 Tie        : (H) the real collect() of src/encode.c + the final flush of
              encode() (harness/h_collect.c, ASan+UBSan, asserts on, every
              buffer an exact-size malloc) against
@@ -27,6 +29,7 @@ import hashlib
 import itertools
 import os
 import re
+import shutil
 import subprocess
 import sys
 from collections import Counter
@@ -355,7 +358,8 @@ def main():
         ck.lean(['LbzVerif.Props.C04'])
     ck.require_theorems(['LbzVerif.Props.C04.' + n for n in (
         'unrle_rle', 'rle1_run', 'rle1_maxrun', 'rleLen_snoc',
-        'rleLen_take_mono', 'pack_maximal', 'pack_largest', 'collect_split',
+        'rleLen_take_mono', 'pack_maximal', 'pack_largest', 'pack_pos',
+        'blocksOf_unfold', 'blocksOf_flatten', 'collect_split',
         'collect_preserves_inv', 'init_wellformed', 'collectMany_flatten',
         'collect_pack', 'collect_pack_single')])
     # the final flush of encode(): cut the statements out of the source so the
@@ -378,6 +382,10 @@ def main():
                             os.path.join(REPO, 'src', 'crctab.c')],
               flags=flags)
     drv = ck.driver()
+    if os.path.exists(drv):
+        # private copy: the shared binary is re-linked (and briefly absent)
+        # whenever another check rebuilds it
+        drv = shutil.copy2(drv, os.path.join(ck.tmp, 'lbzdrv-c04'))
     if h is None or not os.path.exists(drv):
         if h is not None:
             ck.broken.append('driver missing: ' + drv)
